@@ -422,6 +422,12 @@ def run_case(w, case):
         got = sum(len(o['raw']) for o in t.oconns)
         cls += ' [held-in-squid]' if t.unread_at_standstill is not None and t.unread_at_standstill < got else ' [not-held]'
     outcome = cls + ('' if case['exp'] == 'none' else (' 100=%s' % ('relayed' if t.got100 else ('sent-not-relayed' if t.sent100 else 'not-sent'))))
+    if case.get('drain') and not client_complete:
+        # how much of an abandoned body made it upstream before the teardown depends on kernel socket-buffer timing
+        tr = 'O:%s partial\nC:%s' % (
+            ' || '.join(br.mask_head(o['raw'][:o['raw'].find(b'\r\n\r\n') + 4 if b'\r\n\r\n' in o['raw'] else 0]) for o in t.oconns),
+            br.mask_head(t.client_bytes[:400]))
+        return {'outcome': outcome, 'violation': ('%s -- %s' % (describe(case), violation)) if violation else None, 'transcript': tr}
     tr = 'O:%s body=%d:%s\nC:%s' % (
         ' || '.join(br.mask_head(o['raw'][:o['raw'].find(b'\r\n\r\n') + 4 if b'\r\n\r\n' in o['raw'] else len(o['raw'])]) for o in t.oconns),
         sum(len(o['raw']) for o in t.oconns), br.sha(b''.join(o['raw'] for o in t.oconns)) if case['fr'] == 'cl' else br.sha(httpref.parse_request(b''.join(o['raw'] for o in t.oconns)).body),
